@@ -37,7 +37,12 @@ VarSpan(d, seg) == LET os == { i \in seg.from..seg.to : d[i] = "{" }
                        cs == { i \in seg.from..seg.to : d[i] = "}" } IN
                    IF os = {} /\ cs = {} THEN [kind |-> "none"]
                    ELSE IF Cardinality(os) = 1 /\ Cardinality(cs) = 1 /\ (CHOOSE o \in os : TRUE) < (CHOOSE c \in cs : TRUE)
-                   THEN [kind |-> "one", o |-> CHOOSE o \in os : TRUE, c |-> CHOOSE c \in cs : TRUE]
+                   THEN LET o == CHOOSE o \in os : TRUE  c == CHOOSE c \in cs : TRUE
+                            \* the token "(?:" contains a ':' character: if it precedes the first ":" token the code splits
+                            \* name and regex inside it - the structure is not what the tokens suggest
+                            firstColon == IF \E i \in (o + 1)..(c - 1) : d[i] = ":" THEN CHOOSE i \in (o + 1)..(c - 1) : d[i] = ":" /\ \A j \in (o + 1)..(i - 1) : d[j] # ":" ELSE c
+                        IN IF \E i \in (o + 1)..(firstColon - 1) : d[i] = "(?:" THEN [kind |-> "odd"]
+                           ELSE [kind |-> "one", o |-> o, c |-> c]
                    ELSE [kind |-> "odd"]
 Spans(d)   == { VarSpan(d, Segments(d)[k]) : k \in 1..Len(Segments(d)) }
 OneSpans(d) == { s \in Spans(d) : s.kind = "one" }
@@ -52,7 +57,9 @@ IsDynamic(d) == Count(d, {"{", "["}) > 0                       \* isFixedPath is
 \* "an optional part that is not at the end": the closing brackets must all be at the end and match the openings
 TrailClose(d) == LET nonClose == { i \in 1..Len(d) : d[i] # "]" } IN
                  IF nonClose = {} THEN Len(d) ELSE Len(d) - (CHOOSE i \in nonClose : \A j \in nonClose : j <= i)
-BadOptional(d) == IsDynamic(d) /\ CleanSpans(d) /\ (\A i \in 1..Len(d) : d[i] \in {"[", "]"} => ~InSpan(d, i))
+\* (']' is only special when the path contains a '[': without one the code never rewrites brackets and ']' stays a literal)
+HasOpen(d) == Count(d, {"["}) > 0
+BadOptional(d) == IsDynamic(d) /\ HasOpen(d) /\ CleanSpans(d) /\ (\A i \in 1..Len(d) : d[i] \in {"[", "]"} => ~InSpan(d, i))
                   /\ TrailClose(d) # Count(SubSeq(d, 1, Len(d) - TrailClose(d)), {"["})
 \* "a capturing group inside a variable regex": a '(' that does not start '(?' anywhere in the regex of a variable
 CapturingInVar(d) == \E s \in OneSpans(d) : \E i \in 1..Len(RegexOf(Body(d, s))) : RegexOf(Body(d, s))[i] \in Capturing
@@ -64,7 +71,8 @@ Counted(d)    == SelectSeq([i \in 1..Len(d) |-> IF ~InSpan(d, i) \/ InRegexPart(
 RECURSIVE Depth(_, _, _)
 Depth(t, i, n) == IF n < 0 THEN -1 ELSE IF i > Len(t) THEN n
                   ELSE Depth(t, i + 1, IF t[i] \in Opens \cup {"["} THEN n + 1 ELSE IF t[i] \in {")", "]"} THEN n - 1 ELSE n)
-Unbalanced(d) == IsDynamic(d) /\ CleanSpans(d) /\ Depth(Counted(d), 1, 0) # 0
+\* a ']' without any '[' is a literal: such definitions get no verdict from this rule
+Unbalanced(d) == IsDynamic(d) /\ CleanSpans(d) /\ (HasOpen(d) \/ Count(d, {"]"}) = 0) /\ Depth(Counted(d), 1, 0) # 0
 \* a capturing group outside every variable shifts the captured values against the variable names (F21)
 CapturingOutsideVar(d) == IsDynamic(d) /\ CleanSpans(d) /\ \E i \in 1..Len(d) : d[i] \in Capturing /\ ~InSpan(d, i)
 
